@@ -78,40 +78,52 @@ def run(ctx):
         if len(pidx) != 1:
             raise CheckError('C10: %s has no source-thread parameter' % name)
         pidx = pidx[0]
-        cc = f.calls(r'ContinuityStore::create_continuity$')
-        if len(cc) != 1:
-            raise CheckError('C10: %s is expected to call create_continuity once (found %d)' % (name, len(cc)))
-        cc = cc[0]
-        k = f.origin(cc.args[2])
-        fresh = k[0] == 'rv' and k[1].get('variant') == 'None'
-        ctx.ob('C10.1', f, 'fresh-child-id', fresh, 'create_continuity is called with continuity_id = None (a fresh UUID)', line=cc.line)
-        # lineage argument: Some(EventKind::<lineage>)
-        lo = f.origin(cc.args[5]) if len(cc.args) > 5 else ('?',)
-        kind = None
-        kv = None
-        if lo[0] == 'rv' and lo[1].get('variant') == 'Some':
-            ko = f.origin(lo[1]['a'][0])
-            if ko[0] == 'rv' and ko[1].get('adt') == 'rip_kernel::EventKind':
-                kind = ko[1]['variant']
-                kv = ko[1]
-        ctx.ob('C10.2', f, 'lineage-kind', kind == lineage, 'the lineage frame handed to create_continuity is %s' % kind, line=cc.line)
-        for s in E.sites_with(f, 'TruthAppend'):
-            if s.bb == cc.bb:
-                continue
-            takes_parent = any(pidx in reads_locals(f, a) for a in s.args)
-            ctx.ob('C10.1', f, 'no-append-to-parent:' + s.name, not takes_parent, '%s %s' % (s.name, 'does not receive the parent id' if not takes_parent else 'receives the PARENT id and can append to the parent thread'), line=s.line)
-        ctx.ob('C10.1', f, 'single-appending-call', len([s for s in E.sites_with(f, 'TruthAppend')]) == 1, 'the only appending call of %s is create_continuity' % name, line=cc.line)
-        after = f.reach_from_after(cc.bb)
-        local_errs = [(bi, st) for (bi, si, st) in f.aggregates(r'^core::result::Result$', 'Err') if st['d']['l'] == 0 and 'p' not in st['d']]
-        ctx.floor('C10.3', 'validation returns in ' + name, len(local_errs), 3)
-        late = [(bi, st) for (bi, st) in local_errs if bi in after]
-        ctx.ob('C10.3', f, 'validate-before-create', not late,
-               '%d validation return(s); %s' % (len(local_errs), 'none is reachable after create_continuity' if not late else 'one at line %s is reachable AFTER the child thread was created' % late[0][1].get('ln')),
-               line=late[0][1].get('ln') if late else cc.line)
-        fall = [s for s in f.sites() if s.bb in after and re.search(r'Try>::branch$', s.callee) and s.bb != cc.bb and not f.dom(s.bb, cc.bb)]
-        e = ok_edge_of_try(f, cc)
-        fall = [s for s in fall if e is not None and e[1] is not None and f.edge_dom(e[0], e[1], s.bb)]
-        ctx.ob('C10.3', f, 'nothing-fallible-after-create', not fall, 'after the child exists %s' % ('nothing can fail before the success return' if not fall else 'a `?` can still return an error (the child would exist without the caller knowing)'), line=fall[0].line if fall else cc.line)
+        ccs = f.calls(r'ContinuityStore::create_continuity$')
+        if not ccs:
+            raise CheckError('C10: %s does not call create_continuity' % name)
+        # the cut recorded in the lineage frame comes from the full replay of the source thread, never from a
+        # bounded cache scan (a tail window does not know whether the last message lies before it)
+        cache_dests = {s_.dest['l'] for s_ in f.sites() if re.search(r'^ripd::continuity_stream_cache::ContinuityStreamCache::(?!append_best_effort|new)', s_.callee)}
+        for cci in ccs:
+            lo_ = f.origin(cci.args[5]) if len(cci.args) > 5 else ('?',)
+            rl_ = reads_locals(f, cci.args[5]) if len(cci.args) > 5 else set()
+            hit = rl_ & cache_dests
+            ctx.ob('C10.1', f, 'lineage-from-truth', not hit, 'the lineage frame handed to create_continuity %s' % ('is computed from the replayed source thread' if not hit else
+                   'is computed from a CACHE read (%s): a bounded sidecar window can miss the last message, or be stale' % ', '.join(sorted({s_.name for s_ in f.sites() if s_.dest['l'] in hit}))), line=cci.line)
+        cc = ccs[0]
+        if len(ccs) > 1:
+            ctx.note('C10: %s reaches create_continuity at %d call sites (mutually exclusive arms); the per-call clauses below are evaluated for each' % (name, len(ccs)))
+        for cc in ccs:
+            k = f.origin(cc.args[2])
+            fresh = k[0] == 'rv' and k[1].get('variant') == 'None'
+            ctx.ob('C10.1', f, 'fresh-child-id', fresh, 'create_continuity is called with continuity_id = None (a fresh UUID)', line=cc.line)
+            # lineage argument: Some(EventKind::<lineage>)
+            lo = f.origin(cc.args[5]) if len(cc.args) > 5 else ('?',)
+            kind = None
+            kv = None
+            if lo[0] == 'rv' and lo[1].get('variant') == 'Some':
+                ko = f.origin(lo[1]['a'][0])
+                if ko[0] == 'rv' and ko[1].get('adt') == 'rip_kernel::EventKind':
+                    kind = ko[1]['variant']
+                    kv = ko[1]
+            ctx.ob('C10.2', f, 'lineage-kind', kind == lineage, 'the lineage frame handed to create_continuity is %s' % kind, line=cc.line)
+            for s in E.sites_with(f, 'TruthAppend'):
+                if any(s.bb == c_.bb for c_ in ccs):
+                    continue
+                takes_parent = any(pidx in reads_locals(f, a) for a in s.args)
+                ctx.ob('C10.1', f, 'no-append-to-parent:' + s.name, not takes_parent, '%s %s' % (s.name, 'does not receive the parent id' if not takes_parent else 'receives the PARENT id and can append to the parent thread'), line=s.line)
+            ctx.ob('C10.1', f, 'single-appending-call', all(any(s.bb == c_.bb for c_ in ccs) for s in E.sites_with(f, 'TruthAppend')) and not any(f.can_reach(c1.bb, c2.bb) for c1 in ccs for c2 in ccs if c1 is not c2), 'the only appending call of %s is create_continuity' % name, line=cc.line)
+            after = f.reach_from_after(cc.bb)
+            local_errs = [(bi, st) for (bi, si, st) in f.aggregates(r'^core::result::Result$', 'Err') if st['d']['l'] == 0 and 'p' not in st['d']]
+            ctx.floor('C10.3', 'validation returns in ' + name, len(local_errs), 3)
+            late = [(bi, st) for (bi, st) in local_errs if bi in after]
+            ctx.ob('C10.3', f, 'validate-before-create', not late,
+                   '%d validation return(s); %s' % (len(local_errs), 'none is reachable after create_continuity' if not late else 'one at line %s is reachable AFTER the child thread was created' % late[0][1].get('ln')),
+                   line=late[0][1].get('ln') if late else cc.line)
+            fall = [s for s in f.sites() if s.bb in after and re.search(r'Try>::branch$', s.callee) and s.bb != cc.bb and not f.dom(s.bb, cc.bb)]
+            e = ok_edge_of_try(f, cc)
+            fall = [s for s in fall if e is not None and e[1] is not None and f.edge_dom(e[0], e[1], s.bb)]
+            ctx.ob('C10.3', f, 'nothing-fallible-after-create', not fall, 'after the child exists %s' % ('nothing can fail before the success return' if not fall else 'a `?` can still return an error (the child would exist without the caller knowing)'), line=fall[0].line if fall else cc.line)
         if name == 'handoff':
             c104(ctx, f, kv, cc)
     c105(ctx)
@@ -170,7 +182,26 @@ def c105(ctx):
             if hit:
                 loops.append((h, body))
         if not loops:
-            raise CheckError('C10.5: %s has no loop over the source events that inspects run_ended frames' % name)
+            # iterator form: a closure that matches run_ended frames, handed to an adaptor. filter / map / fold / max /
+            # for_each visit the whole stream; find / any / position / take_while / skip_while / take stop early.
+            fam_ = list(P.family(STORE + name))
+            for hb in sorted(getattr(f, 'inlined_bodies', ())):
+                fam_ += [x for x in P.family(hb) if x not in fam_]
+            users = []
+            for g in fam_:
+                for s_ in g.sites():
+                    for a in s_.args:
+                        o = g.origin(a)
+                        if o[0] == 'rv' and o[1].get('ak') == 'closure' and o[1].get('def') in P.fns:
+                            cf = P.fns[o[1]['def']]
+                            if any(str(idx['ContinuityRunEnded']) in ts for (bi, on, ts, els) in switches(cf)):
+                                users.append(s_)
+            if not users:
+                raise CheckError('C10.5: %s neither loops over the source events nor hands a run_ended-matching closure to an iterator adaptor' % name)
+            early = [u for u in users if re.search(r'::(find|find_map|any|all|position|rposition|take_while|skip_while|map_while|take|try_fold|try_for_each)$', u.callee)]
+            ctx.ob('C10.5', f, 'related-frames-scan-complete', not early, 'the frames related to from_message_id are collected by %s: %s' % (', '.join(sorted({u.name for u in users})),
+                   'every frame of the source stream is visited' if not early else 'the adaptor can stop EARLY — a run that ends after a later message is cut off'), line=users[0].line)
+            continue
         h, body = min(loops, key=lambda x: len(x[1]))
         exits = [(a, b) for a in body for b in f.succs(a) if b not in body]
         bad = []
@@ -215,3 +246,34 @@ def c105(ctx):
                     ctx.ob('C10.6', g, 'cut-inclusive', ok, 'Event.seq %s cut: %s' % ({'Le': '<=', 'Gt': '>', 'Lt': '<', 'Ge': '>='}[op], 'the frame at the cut belongs to the child\'s history' if ok else
                            'STRICT — the frame exactly at from_seq falls on the wrong side (the lineage names the previous message, or none)'), line=st.get('ln'))
     ctx.floor('C10.6', 'ordering comparisons of Event.seq in branch / handoff', ncmp, 2)
+
+
+    # ---------------------------------------------------------------- C10.7
+    ctx.rule('C10.7', 'from_message_id names a message: wherever branch / handoff (and their closures) compare Event.id with the requested id to find the anchor, the comparison is reachable only on the ContinuityMessageAppended arm of a test of that frame\'s kind — any other frame id (run_spawned, run_ended, created) must be refused, not recorded as the message the child starts from.')
+    adt = P.adts.get('rip_kernel::EventKind')
+    vidx = {v['name']: i for i, v in enumerate(adt['variants'])}
+    nid = 0
+    from ..core import switches as _sw7
+    for name in ('branch', 'handoff'):
+        fam_ = [lineage_fn(P, name)] + [g for g in P.family(STORE + name) if g.path != STORE + name]
+        for hb in sorted(getattr(fam_[0], 'inlined_bodies', ())):
+            fam_ += [x for x in P.family(hb) if x not in fam_ and x.path != hb]
+        for g in fam_:
+            for c in g.calls(r'PartialEq(::|.*>::)(eq|ne)$'):
+                isid = False
+                for a in c.args:
+                    src = g.origin(a)
+                    if src[0] == 'local' and any(isinstance(pp, dict) and pp.get('n') == 'id' and pp.get('o') == 'rip_kernel::Event' for pp in src[2]):
+                        isid = True
+                if not isid:
+                    continue
+                nid += 1
+                ok = False
+                for (bi, on, ts, els) in _sw7(g):
+                    o = g.origin(on)
+                    if o[0] == 'rv' and o[1]['k'] == 'discr' and str(vidx['ContinuityMessageAppended']) in ts:
+                        if g.edge_dom(bi, ts[str(vidx['ContinuityMessageAppended'])], c.bb):
+                            ok = True
+                ctx.ob('C10.7', g, 'anchor-is-a-message', ok, 'Event.id is compared with the requested id %s' % ('only on the ContinuityMessageAppended arm' if ok else
+                       'for frames of ANY kind: the id of a run_spawned / run_ended / created frame is accepted as from_message_id'), line=c.line)
+    ctx.floor('C10.7', 'comparisons of Event.id with the requested message id in branch / handoff', nid, 2)
